@@ -76,7 +76,7 @@ def toy_model(real):
                 self._protocol = dose
                 return
             self._protocol = myokit.Protocol()
-            self._protocol.schedule(level=dose / duration, start=start, duration=duration, period=period or 0, multiplier=num or 0)
+            self._protocol.schedule(level=dose / duration, start=start, duration=duration, period=period or 0, multiplier=(num or 0) if period else 0)
 
         def dosing_regimen(self):
             return self._protocol
@@ -290,6 +290,8 @@ def run_case(real, gt, rng, mech='toy'):
     oo = {('o%d' % o): names[o] for o in outputs_used} if (gt['mapped'] == 'renamed' or len(set(df[K['obs']].dropna().unique())) > len(outputs_used)) else None
     if oo is not None and len(gt['ids']) % 2 == 0:
         oo = dict(reversed(list(oo.items())))          # the mapping may be written in any order
+    if gt['mapped'] == 'o0 only' and len(gt['ids']) % 2 == 1:
+        oo = None          # default mapping of a single-output model: the observable named like the output, wherever it appears in the frame
     with warnings.catch_warnings():
         warnings.simplefilter('ignore')
         try:
@@ -306,7 +308,17 @@ def run_case(real, gt, rng, mech='toy'):
                 nm = ctrl.get_parameter_names()
                 j_fix = 0 if (pop is None and len(gt['ids']) % 2 == 1) else n - 1        # without a population model also a mechanistic parameter
                 fixed_at = (j_fix, 0.9)
-                ctrl.fix_parameters({nm[j_fix]: 0.9})
+                if len(gt['ids']) % 3 == 0:
+                    ctrl.fix_parameters({nm[j_fix]: 0.9})
+                else:
+                    # several calls: a first value, an unrelated second parameter, then the final value / the release of the second one
+                    other = (j_fix + 1) % n if n > 1 else j_fix
+                    ctrl.fix_parameters({nm[j_fix]: 0.4})
+                    if other != j_fix:
+                        ctrl.fix_parameters({nm[other]: 0.6})
+                    ctrl.fix_parameters({nm[j_fix]: 0.9})
+                    if other != j_fix:
+                        ctrl.fix_parameters({nm[other]: None})
                 if ctrl.get_n_parameters() != n - 1 or ctrl.get_parameter_names() != nm[:j_fix] + nm[j_fix + 1:]:
                     return 'after fixing %r the controller reports %s' % (nm[j_fix], ctrl.get_parameter_names())
                 n -= 1
